@@ -37,7 +37,10 @@ LEVEL_NOTE = "Trusted: peer model of the ES setting commands; reference decoder.
 TECHNIQUE = "deterministic simulation: stateful peer, setter then getter, reference decode of the written groups"
 
 CONFIGS = [("ET", "v1", "udp"), ("ET", "v2", "udp"), ("ET", "v2", "tcp"), ("ET", "v2_745", "udp"), ("ET", "v2_nopeak", "udp"),
-           ("ES", "v1", "udp"), ("ES", "v2", "udp")]
+           ("ES", "v1", "udp"), ("ES", "v2", "udp"),
+           # old ARM firmware (version 4 < 7: the mode helpers take another path) and an ES object that never read its
+           # device info (arm_version 0)
+           ("ES", "v1_oldarm", "udp"), ("ES", "v1_noinfo", "udp")]
 PRIORS = ["off", "charge247", "discharge247", "type1_on", "type2_off", "type3_on", "type4_on", "type5_off", "t745_on",
           "t745_charge247", "notset", "garbage", "zeros", "winter_months", "one_month",
           # undecodable only AFTER the type byte: a foreign type is recognised, then a field is out of range
@@ -161,7 +164,8 @@ def build(goodwe, ci, seed):
         bases = [47547, 47553, 47559, 47565] if v2 else [47515, 47519, 47523, 47527]
     else:
         v2 = var == "v2"
-        dev = devices.make_es(seed=seed, fill="zero", firmware="2525E" if v2 else "14147", eco_v2_modbus=v2,
+        dev = devices.make_es(seed=seed, fill="zero",
+                              firmware="2525E" if v2 else ("04045" if var == "v1_oldarm" else "14147"), eco_v2_modbus=v2,
                               runtime=bytes(142), settings=bytes(86))
         dev.comm_addr = None
         inv = goodwe.ES(C.HOST, C.port_of(tr), 0, 1, 1)
@@ -217,7 +221,8 @@ def run_mode(case):
     async def main():
         for i in range(4):
             setg(i, prior_bytes("off", v2, rnd))
-        await inv.read_device_info()
+        if var != "v1_noinfo":
+            await inv.read_device_info()
         modes = list(await inv.get_operation_modes(True))
         if case["mode_slot"] >= len(modes):
             return
@@ -225,6 +230,16 @@ def run_mode(case):
         emulated = m in (gw.OperationMode.ECO_CHARGE, gw.OperationMode.ECO_DISCHARGE)
         pairs = ps_pairs(case, rnd) if emulated else [(rnd.randint(1, 100), rnd.randint(0, 100))]
         for (p, s) in pairs:
+            if case.get("from_mode", True):
+                # the inverter is in ANOTHER mode before the call (set through the library itself, fault-free; its
+                # outcome is not judged here): a setter that forgets to write the mode is invisible otherwise
+                other = modes[(case["mode_slot"] + 1 + (p % max(1, len(modes) - 1))) % len(modes)]
+                if other != m:
+                    world.net.begin_script([], {"k": "ok"})
+                    try:
+                        await inv.set_operation_mode(other, 50, 50)
+                    except Exception:  # noqa
+                        pass
             prior = prior_bytes(case["prior"], v2, rnd)
             if not v2 and case["prior"] not in ("off", "charge247", "discharge247", "garbage", "zeros"):
                 prior = prior_bytes("rand", v2, rnd)
@@ -385,7 +400,8 @@ def run_dod(case):
     n = {"rt": 0}
 
     async def main():
-        await inv.read_device_info()
+        if var != "v1_noinfo":
+            await inv.read_device_info()
         for d in range(0, 101):
             r1 = await C.do_call(world, "set", lambda: inv.set_ongrid_battery_dod(d))
             if r1["outcome"] != "result":
